@@ -44,6 +44,8 @@ def split_case(seed, cid):
     trees = []
     for i, p in enumerate(parts):
         types = list(TYPES) + p["xtypes"]
+        if rng.random() < 0.6:      # declaration lines in any order: children before their parents
+            rng.shuffle(types)
         preds = [L(S(n), *typed([[f"?a{j}", t] for j, t in enumerate(PREDS[n])])) for n in PREDS if n in p["preds"]]
         if p.get("xpred"):
             preds.append(L(S(p["xpred"]), *typed([["?a0", p["xtypes"][0][0]]])))
